@@ -267,11 +267,24 @@ class Fs:
         m, meta = self.ind_blocks(ino, inode)
         return {k: (v, False) for k, v in m.items()}, meta
 
+    inline = False      # opt-in: read inline-data files and directories (i_block + system.data)
+
+    def inline_bytes(self, ino, inode):
+        """(the 60 bytes of i_block, the system.data value)"""
+        try:
+            extra = xattrs(self, ino, inode).get("system.data", b"")
+        except (FormatError, struct.error):
+            extra = b""
+        return bytes(inode["i_block"][:60]), extra
+
     def file_data(self, ino, inode=None):
         inode = inode or self.inode(ino)
         size = inode["size"]
         if inode["flags"] & INLINE_DATA_FL:
-            return None
+            if not self.inline:
+                return None
+            a, b = self.inline_bytes(ino, inode)
+            return (a + b)[:size]
         fmt = inode["mode"] & 0xF000
         if fmt == 0xA000 and 0 < size < 60 and not inode["flags"] & EXTENTS_FL:
             return inode["i_block"][:size]
@@ -307,7 +320,14 @@ class Fs:
     def dir_entries(self, ino, inode=None):
         inode = inode or self.inode(ino)
         if inode["flags"] & INLINE_DATA_FL:
-            return None
+            if not self.inline:
+                return None
+            a, b = self.inline_bytes(ino, inode)
+            ents = [(b".", ino, 2), (b"..", struct.unpack_from("<I", a, 0)[0], 2)]
+            for region in (a[4:], b):
+                if len(region) >= 8:
+                    ents += [(name, i, ft) for (o, i, rl, nl, ft, name) in self.dir_block_entries(region) if i]
+            return ents
         m, _ = self.file_map(ino, inode)
         ents = []
         for lblk in sorted(m):
